@@ -60,6 +60,11 @@ type zzC19Svc struct {
 	// LookupFails); nFail counts the failures that really showed.
 	fail  bool
 	nFail int
+	// errReply makes every Exchange answer with an error reply: a well-formed
+	// message with response code SERVFAIL, REFUSED or NOTIMP and no records
+	// (the spec's ErrorReply); nErr counts them.
+	errReply bool
+	nErr     int
 }
 
 // zzC19ErrSvc is the error of a failing lookup service.
@@ -108,6 +113,16 @@ func (s *zzC19Svc) Exchange(req *dns.Msg) (resp *dns.Msg, err error) {
 		s.nFail++
 
 		return nil, zzC19ErrSvc{}
+	}
+
+	if s.errReply {
+		s.nErr++
+		rcodes := []int{dns.RcodeServerFailure, dns.RcodeRefused, dns.RcodeNotImplemented}
+		resp = (&dns.Msg{}).SetRcode(req, rcodes[s.rng.Intn(len(rcodes))])
+		// Sometimes flagged as truncated as well; never any record.
+		resp.Truncated = s.rng.Intn(4) == 0
+
+		return resp, nil
 	}
 
 	resp = (&dns.Msg{}).SetReply(req)
@@ -369,6 +384,7 @@ type zzC19StepOut struct {
 	V    bool                `json:"v"`
 	OK   bool                `json:"ok"`
 	F    bool                `json:"f"`
+	X    bool                `json:"x"`
 	E    bool                `json:"e"`
 	Why  string              `json:"why,omitempty"`
 	Host string              `json:"host,omitempty"`
@@ -606,7 +622,7 @@ func TestZZVerifC19Walk(t *testing.T) {
 	}
 	sort.Slice(tempt, func(i, j int) bool { return string(tempt[i][:]) < string(tempt[j][:]) })
 
-	steps, nJunk, nFail := 0, 0, 0
+	steps, nJunk, nFail, nErr := 0, 0, 0, 0
 	synctest.Run(func() {
 		for _, w := range walks {
 			svc := &zzC19Svc{rng: rng, db: map[zzC19Hash]bool{}, tempt: tempt, junk: true}
@@ -636,7 +652,7 @@ func TestZZVerifC19Walk(t *testing.T) {
 					} else {
 						svc.db[h] = true
 					}
-				case "c", "f":
+				case "c", "f", "x":
 					var key string
 					_ = json.Unmarshal(st[1], &key)
 					ni, ok := byKey[key]
@@ -646,16 +662,16 @@ func TestZZVerifC19Walk(t *testing.T) {
 					host := strings.Join(names[ni], ".")
 					// Every other answer carries no junk at all.
 					svc.junk = rng.Intn(4) != 0
-					svc.fail = kind == "f"
+					svc.fail, svc.errReply = kind == "f", kind == "x"
 					t0 := time.Now()
 					blocked, err := chk.Check(host)
 					if !time.Now().Equal(t0) {
 						t.Fatalf("c19: virtual time moved during Check")
 					}
-					svc.fail = false
+					svc.fail, svc.errReply = false, false
 					prefs, qn, ok, why := svc.zzC19Observe(host, zzC19Chain(names[ni]))
 					so.V, so.OK, so.Why, so.Host, so.QN = blocked, ok, why, host, qn
-					so.F, so.E = kind == "f", err != nil
+					so.F, so.X, so.E = kind == "f", kind == "x", err != nil
 					if err != nil {
 						so.Why += " error: " + err.Error()
 					}
@@ -697,6 +713,7 @@ func TestZZVerifC19Walk(t *testing.T) {
 			}
 			nJunk += svc.nJunk
 			nFail += svc.nFail
+			nErr += svc.nErr
 		}
 	})
 
@@ -710,7 +727,7 @@ func TestZZVerifC19Walk(t *testing.T) {
 	}
 	out.put(map[string]any{"summary": map[string]any{
 		"steps": steps, "walks": len(walks), "hashes_tried": conc.tried, "classes": cl, "names": cn,
-		"junk_strings": nJunk, "failed_lookups": nFail,
+		"junk_strings": nJunk, "failed_lookups": nFail, "error_replies": nErr,
 	}})
 }
 
@@ -728,6 +745,7 @@ type zzC19TraceLine struct {
 	V   bool           `json:"v"`
 	OK  bool           `json:"ok"`
 	F   bool           `json:"f"`
+	X   bool           `json:"x"`
 	E   bool           `json:"e"`
 	// not read by the trace spec
 	Why  string   `json:"why,omitempty"`
@@ -920,12 +938,16 @@ func TestZZVerifC19Trace(t *testing.T) {
 					// failing service.
 					svc.fail = rng.Intn(9) == 0
 					failing := svc.fail
+					// Error replies only in one walk out of three (w % 3 == 1),
+					// there for one lookup in ten.
+					svc.errReply = !failing && w%3 == 1 && rng.Intn(10) == 0
+					errReply := svc.errReply
 					t0 := time.Now()
 					blocked, err := chk.Check(host)
 					if !time.Now().Equal(t0) {
 						t.Fatalf("c19: virtual time moved during Check")
 					}
-					svc.fail = false
+					svc.fail, svc.errReply = false, false
 					prefs, qn, ok, why := svc.zzC19Observe(host, chain)
 					l := zzC19NewLine("check", w)
 					cut, opt := zzC19PSL(labels)
@@ -934,7 +956,7 @@ func TestZZVerifC19Trace(t *testing.T) {
 					if l.Q == nil {
 						l.Q = []string{}
 					}
-					l.F, l.E = failing, err != nil
+					l.F, l.X, l.E = failing, errReply, err != nil
 					if err != nil {
 						l.Why += " error: " + err.Error()
 					}
